@@ -265,6 +265,12 @@ fn check_l3(acc: &mut Acc, sub: &str, rank: u64, x: f64) {
             return;
         }
     };
+    // the printed form denotes x: read by std's correctly rounded parser (trusted base) it is x
+    // again, bit for bit ("every number the printer emits ... reads back as the same number"
+    // needs the printed text to be that number in the first place)
+    if s.parse::<f64>().ok().map(f64::to_bits) != Some(x.to_bits()) {
+        acc.violation(sub, "printed-float-denotes-another-number", "printed-float-denotes-another-number", rank, format!("float bits {:#x} ({:e})", x.to_bits(), x), format!("printed as {:?}, which denotes {:?}", s, s.parse::<f64>().ok()), || json!({"f64_bits": x.to_bits().to_string()}));
+    }
     let mut variants: Vec<String> = vec![s.clone()];
     if !s.starts_with('-') {
         variants.push(format!("+{}", s));
